@@ -210,7 +210,7 @@ func (d *Decoder) readTypedMap() (interface{}, error) {
 		} else {
 			fieldName, ok := key.(string)
 			if !ok {
-				return nil, newCodecError("readTypedMap", "the type of map key must be string, but get [%v]", key)
+				return nil, newCodecError("readTypedMap", "the type of map key must be string, but get %T", key)
 			}
 			fieldValue := mValue.FieldByName(fieldName)
 			if fieldValue.IsValid() {
